@@ -82,7 +82,9 @@ func main() {
 	if r.Want("composite-findmissing") {
 		us := fmUniverses(r.Thorough())
 		runCompositeSub(r, "composite-findmissing", space+fmt.Sprintf(" x 4 digest universes (6 digests under each of 3 instance names; %d mixed (digest, instance name) pairs) x presence patterns (all 64 for the 6-digest universe under instance name \"\" and, in the thorough tier, under the other two names; otherwise none/all/alternating/each single present/each single absent; present = held only by its own shard, absent = held by every other shard) x every asked subset", len(us[3])), lists,
-			func(l []shardJ, st *compStats, emit func(compViol)) { runFindMissing(l, us, r.Thorough(), nil, st, emit) })
+			func(l []shardJ, st *compStats, emit func(compViol)) {
+				runFindMissing(l, us, r.Thorough(), nil, st, emit)
+			})
 	}
 	if r.Want("composite-errors") {
 		runCompositeSub(r, "composite-errors", space+" x every failing-shard assignment (one shard INTERNAL or UNAVAILABLE; two shards, one each) x 2 instance names x ({Put,Get,GetFromComposite,FindMissing} x 6 digests + FindMissing of every subset of the 6 digests)", lists,
